@@ -90,7 +90,9 @@ STACKS = [("client", {}), ("pooled", {"max_pool_size": 1}), ("pooled", {"max_poo
           # one that connects in its constructor, one that maps keys into a namespace
           ("client", {"client_class": "late-noreply"}), ("pooled", {"max_pool_size": 1, "client_class": "late-noreply"}), ("hash", {"client_class": "late-noreply"}),
           ("pooled", {"max_pool_size": 1, "client_class": "eager"}), ("hash-pooled", {"max_pool_size": 1, "client_class": "eager", "client_class_how": "classattr"}),
-          ("pooled", {"max_pool_size": 2, "client_class": "namespace", "client_class_how": "classattr"})]
+          ("pooled", {"max_pool_size": 2, "client_class": "namespace", "client_class_how": "classattr"}),
+          # the ElastiCache subclass of HashClient over one node
+          ("aws", {}), ("aws-pooled", {"max_pool_size": 1})]
 
 
 def sweep_cases(tier, seed, interrupts=False, lib=None):
@@ -101,6 +103,8 @@ def sweep_cases(tier, seed, interrupts=False, lib=None):
                 for oi, r in enumerate(lib):
                     if ie and r["op"] not in faultlab.READ_OPS and tier == "quick" and (oi % 3):
                         continue       # ignore_exc only matters for reads; thin out the rest in the quick tier
+                    if kind.startswith("aws") and tier == "quick" and (oi + ie + warm) % 2:
+                        continue
                     if "client_class" in extra and (ie or (tier == "quick" and oi % 2 and extra["client_class"] != "late-noreply")
                                                     or (extra["client_class"] == "late-noreply" and "noreply" in r)):
                         continue
@@ -143,7 +147,7 @@ def rejected_batch_cases(tier, seed):
                         if isinstance(bad_v, bytes):
                             ops_ += [{"op": "delete_many", "keys": list(batch), "noreply": nr}, {"op": "get_many", "keys": list(batch)}]
                         for r in ops_:
-                            if kind.startswith("hash") and r["op"] != "set_many":
+                            if kind.startswith(("hash", "aws")) and r["op"] != "set_many":
                                 continue
                             for warm in (False, True):
                                 pre = [{"op": {"op": "get", "key": "warmup"}}] if warm else []
